@@ -54,6 +54,17 @@ Theorem c10_translated_admin_helpers : forall d (owned : bool) addr adm,
     (CVal (VRec "WasmMsg::ClearAdmin" [("contract_addr", VStr addr)])).
 Proof. intros. split; [apply calls_update_admin|apply calls_clear_admin]. Qed.
 
+(* the query side: a handle bound to a querier keeps the handle's address and exactly that querier; the accessors return
+   them; copying a bound querier changes nothing; AsRef gives the handle's address *)
+Theorem c10_translated_bound_querier : forall d (owned : bool) addr q c,
+  calls types_program (S d) "Remote::querier" [remote_val owned addr; q] (CVal (bq_val (cow owned addr) q)) /\
+  calls types_program (S d) "BoundQuerier::contract" [bq_val c q] (CVal c) /\
+  calls types_program (S d) "BoundQuerier::querier" [bq_val c q] (CVal q) /\
+  calls types_program (S d) "BoundQuerier::borrowed" [c; q] (CVal (bq_val c q)) /\
+  calls types_program (S (S d)) "BoundQuerier::from" [bq_val c q] (CVal (bq_val c q)) /\
+  calls types_program (S d) "Remote::as_ref" [remote_val owned addr] (CVal (cow owned addr)).
+Proof. exact translated_bound_querier. Qed.
+
 Example c10_translated_example :
   call builder_program 2 40 "InstantiateBuilder::new" [VStr "e30="; VNat 5] = Some (CVal (rep (b_new (VStr "e30=") (VNat 5)))) /\
   call builder_program 2 40 "InstantiateBuilder::build" [rep (b_apply (b_apply (b_new (VStr "e30=") (VNat 5)) (BLabel "a")) (BLabel "b"))] =
@@ -64,3 +75,4 @@ Print Assumptions c10_translated_instantiate_builder.
 Print Assumptions c10_translated_builder_setters.
 Print Assumptions c10_translated_executor_path.
 Print Assumptions c10_translated_admin_helpers.
+Print Assumptions c10_translated_bound_querier.
